@@ -147,6 +147,7 @@ def parseCall (method : String) (args : List String) : Option Call :=
   | "openfile" => some (.openFile (natArg args 0) (nameArg args 1) (natArg args 2) (intArg args 3))
   | "open" => some (.open_ (natArg args 0) (nameArg args 1))
   | "hwrite" => some (.hwrite (natArg args 0) (genBytes (natArg args 1) (natArg args 2)))
+  | "hwritestr" => some (.hwriteString (natArg args 0) (genBytes (natArg args 1) (natArg args 2)))
   | "hsync" => some (.hsync (natArg args 0))
   | "hclose" => some (.hclose (natArg args 0))
   | "hreaddir" => some (.hreaddir (natArg args 0) (intArg args 1))
@@ -235,7 +236,7 @@ def refCall (s : DState) (method : String) (args : List String) : DState × Stri
       ({ s with ref := st'', refHandles := (id, { path := p, writable := writable, append := hasFlag flag O_APPEND, truncate := trunc }) :: s.refHandles.filter (·.1 != id) },
        "refres\tok")
     else (s, "refres\t" ++ encRes r)
-  | "hwrite" =>
+  | "hwrite" | "hwritestr" =>
     let id := natArg args 0
     (match (s.refHandles.find? (·.1 == id)).map (·.2) with
      | none => (s, "refres\tbadhandle")
